@@ -8,8 +8,10 @@
 using namespace vfh;
 static int g_copies = 0, g_throwat = 0; static bool g_arm = false;
 struct Thrown {};
-struct El { int v; El(int x = 0) : v(x) {} El(const El& o) : v(o.v) { if (g_arm && ++g_copies == g_throwat) throw Thrown(); } El(El&& o) noexcept : v(o.v) {} El& operator=(const El& o) { v = o.v; return *this; } El& operator=(El&& o) noexcept { v = o.v; return *this; }
-    bool operator<(const El& o) const { return v / 10 < o.v / 10; } };   // priority = v/10, so v and v+1 tie
+// element contents are announced to the happens-before oracle (-hb): the aggregator's handler thread reads the pusher's element and writes the popper's result
+struct El { int v; El(int x = 0) : v(x) {} El(const El& o) : v(o.v) { vf_plain_read(&o.v); vf_plain_write(&v); if (g_arm && ++g_copies == g_throwat) throw Thrown(); } El(El&& o) noexcept : v(o.v) { vf_plain_read(&o.v); vf_plain_write(&v); }
+    El& operator=(const El& o) { vf_plain_read(&o.v); vf_plain_write(&v); v = o.v; return *this; } El& operator=(El&& o) noexcept { vf_plain_read(&o.v); vf_plain_write(&v); v = o.v; return *this; } ~El() { vf_plain_write(&v); }
+    bool operator<(const El& o) const { vf_plain_read(&v); vf_plain_read(&o.v); return v / 10 < o.v / 10; } };   // priority = v/10, so v and v+1 tie
 enum { K_PUSH, K_TRYPOP };
 static const char* const NAMES[] = {"push", "try_pop"};
 static const long R_EMPTY = -1, R_THREW = -3;
